@@ -1,6 +1,14 @@
 import Driver.Util
+import Driver.Conc
 import Driver.Mgr
+import Driver.Session
+import Driver.FD
+import Driver.Codec
 import Driver.Gossip
+import Driver.Rebalance
+import Driver.Syncer
+import Driver.WS
+import Driver.Auth
 /-!
 # Model driver: one op per input line → one canonical output line.
 `driver <engine> < ops`.  Lines starting with `#` and blank lines are skipped; `case <name>`
@@ -10,6 +18,14 @@ open Piko.Driver
 
 def engines : List (String × Engine) :=
   [("mgr", MgrEngine.engine),
+   ("conc", ConcEngine.engine),
+   ("session", SessionEngine.engine),
+   ("auth", AuthEngine.engine),
+   ("fd", FDEngine.engine),
+   ("rebalance", RebalanceEngine.engine),
+   ("codec", CodecEngine.engine),
+   ("syncer", SyncerEngine.engine),
+   ("ws", WSEngine.engine),
    ("gossip", GossipEngine.engine)]
 
 partial def loop (h : IO.FS.Stream) (out : IO.FS.Stream) (e : Engine) (s : e.σ) : IO Unit := do
